@@ -2,14 +2,23 @@
 C01, text formats — what the OPL / XML writers write, the OPL / XML readers read back.
 
 Property theorems only (models: Osmium/Model/{OplFmt,XmlFmt}.lean; helper lemmas:
-Osmium/Lemmas/{OplFmt,OplFmtObj,OplFmtCs,XmlFmt}.lean).  The string and number fields are
-discharged by the round-trip theorems of C14 (`opl_roundtrip`, `xml_roundtrip_partial`) and C13
-(`coord_roundtrip`, `output_int_roundtrip`, `ts_roundtrip`, `object_id_spec`, `ulong_spec`).
+Osmium/Lemmas/{OplFmt,OplFmtObj,OplFmtCs,XmlFmt,XmlFmtObj,XmlFmtRun,XmlFmtRt,XmlFmtFile}.lean).  The
+string and number fields are discharged by the round-trip theorems of C14 (`opl_roundtrip`,
+`xml_roundtrip_partial`) and C13 (`coord_roundtrip`, `output_int_roundtrip`, `ts_roundtrip`,
+`object_id_strict`, `ulong_strict`).
 
 `project opts o` is the object with every field the option vector drops reset to its default.
+
+Proved: `opl_roundtrip` (all four object kinds, all option vectors), `xml_roundtrip` (nodes, ways,
+relations, all option vectors, every position the writer puts them in), `xml_file_roundtrip` /
+`xml_file_roundtrip_expat` (header with generator and boxes + change sections + object sequence of
+one buffer), `xml_header_roundtrip`, `change_file_roundtrip`.
+NOT proved: XML changesets / discussions (only the differential check), files of several
+buffers (the op tags are per buffer; same lemmas, fold not done), a file-level OPL theorem over
+`Chunks.specLines`.
 -/
 import Osmium.Lemmas.OplFmtCs
-import Osmium.Model.XmlFmt
+import Osmium.Lemmas.XmlFmtFile
 
 namespace Osmium.C01Text
 open Osmium.Osm Osmium.TextFmt Osmium.Conv
@@ -76,12 +85,160 @@ example : ∀ obj ∈ [
 
 /-! ## XML
 
-The XML round trip is tied to the code by the byte-exact / cross / expat-contract correspondence
-of tools/props/c01_text.py; only the following pieces are PROVED.  MISSING (not proved, hence
-nothing of that name below): `xml_roundtrip` (objects: needs `string_to_object_id ∘ output_int = id` on
-top of C13's digit-list specs and "reference decoding is the identity on digits" on top of C14,
-then the context-stack induction over `objectPieces`), the generator clause of
-`header_roundtrip`. -/
+expat is a parameter of the XML model: the writer produces markup pieces, `eventsOf` is what a
+conforming parser reports for them (`ExpatContract`, checked against the real expat on every run),
+the reader consumes events. -/
+
+/-- XML strings: valid UTF-8 of XML `Char`s (no NUL, no C0 controls except TAB/LF/CR, no
+    U+FFFE/U+FFFF — the C14 finding), at most 1024 bytes -/
+def XStrDom (bs : Bytes) : Prop := XmlFmt.xstrOK bs = true
+
+/-- changeset ids below 2^32−1: `string_to_ulong` rejects 2^32−1 (recorded finding
+    `xml-u32-max:changeset`) -/
+def XMetaDom (m : Meta) : Prop :=
+  int64Min < m.id ∧ m.id ≤ int64Max ∧ m.version < 2147483648 ∧ m.timestamp < 4294967296 ∧
+  m.changeset < 4294967295 ∧ m.uid < 2147483648 ∧ XStrDom m.user ∧ ∀ t ∈ m.tags, XStrDom t.key ∧ XStrDom t.value
+
+def XLocDom (l : Location) : Prop := int32Min ≤ l.x ∧ l.x ≤ int32Max ∧ int32Min ≤ l.y ∧ l.y ≤ int32Max
+
+/-- nodes, ways, relations of the XML domain (any int32 coordinates: a location that is not
+    completely defined is not written and reads back undefined — `project`) -/
+def XmlInDomain : Object → Prop
+  | .node m l => XMetaDom m ∧ XLocDom l
+  | .way m ns => XMetaDom m ∧ ∀ n ∈ ns, int64Min < n.ref ∧ n.ref ≤ int64Max ∧ XLocDom n.location
+  | .relation m ms => XMetaDom m ∧ ∀ x ∈ ms, (x.type = 1 ∨ x.type = 2 ∨ x.type = 3) ∧ int64Min < x.ref ∧ x.ref ≤ int64Max ∧ XStrDom x.role
+  | .changeset .. => False
+
+instance : DecidablePred XmlInDomain := fun o => by
+  cases o <;> unfold XmlInDomain <;> (try unfold XMetaDom XLocDom XStrDom) <;> exact inferInstance
+
+theorem XMetaDom.ok {m : Meta} (h : XMetaDom m) : XmlFmt.XMetaOK m := by
+  obtain ⟨h1, h2, h3, h4, h5, h6, h7, h8⟩ := h
+  exact ⟨h1, h2, h3, h4, h5, h6, h7, fun t ht => h8 t ht⟩
+
+/-- the metadata of a node / way / relation -/
+def metaOfObj : Object → Meta
+  | .node m _ => m
+  | .way m _ => m
+  | .relation m _ => m
+  | .changeset .. => { id := 0 }
+
+open Osmium.XmlFmt in
+/-- **XML round trip (nodes, ways, relations).**  For every object of the XML domain and EVERY
+    option vector (32 metadata subsets × history / force_visible_flag × locations_on_ways × change
+    file or not), in every reader state that stands where the writer puts the object (directly
+    under `<osm>`, or in the change section `create` / `modify` / `delete` the writer chose for it):
+    the writer does not fail; a conforming XML parser reports events for its markup (`eventsOf`,
+    the ExpatContract); and the reader, fed with these events, appends exactly `project opts o`
+    to its output and publishes the header — nothing else changes.
+    (Changesets with discussions are NOT covered by any XML theorem: only the differential check.) -/
+theorem xml_roundtrip (o : Opts) (obj : Object) (h : XmlInDomain obj) (st : RSt) (rest : List Ctx)
+    (hs : st.stack = parentCtx o (metaOfObj obj) :: rest) (hc : st.cur = none) :
+    ∃ ps evs, objectPieces o obj = .ok ps ∧ eventsOf ps = some evs ∧
+      runEvents {} evs st = .ok { markDone st with out := XmlFmt.project o obj :: st.out } := by
+  have key : ∃ ps, objectPieces o obj = .ok ps ∧
+      runPieces ps st = .ok { markDone st with out := XmlFmt.project o obj :: st.out } := by
+    cases obj with
+    | node m l => exact node_rt o m l h.1.ok h.2 st rest hs hc
+    | way m ns => exact way_rt o m ns h.1.ok (fun n hn => ⟨(h.2 n hn).1, (h.2 n hn).2.1, (h.2 n hn).2.2⟩) st rest hs hc
+    | relation m ms => exact relation_rt o m ms h.1.ok (fun x hx => h.2 x hx) st rest hs hc
+    | changeset => exact absurd h (by simp [XmlInDomain])
+  obtain ⟨ps, hw, hr⟩ := key
+  obtain ⟨evs, he, hrun⟩ := eventsOf_of_runPieces ps st _ hr
+  exact ⟨ps, evs, hw, he, hrun⟩
+
+/-- non-vacuity: three objects of the XML domain (negative and maximal ids, every escape class,
+    4-byte UTF-8, half-defined location, all three member types) -/
+example : ∀ obj ∈ [
+    Object.node { id := -9223372036854775807, version := 2147483647, visible := false, timestamp := 4294967295,
+                  changeset := 4294967294, uid := 1, user := [0x22, 0x27, 0x3c, 0x3e, 0x26, 0x0a, 0x0d, 0x09, 0xf0, 0x9f, 0x9a, 0x80],
+                  tags := [⟨[0x6b], [0x26]⟩, ⟨[], []⟩] } ⟨1800000000, 2147483647⟩,
+    Object.way { id := 9223372036854775807 } [⟨1, Location.undefined⟩, ⟨-2, ⟨1, 2⟩⟩],
+    Object.relation { id := 0, user := [0xc3, 0xa9] } [⟨1, 5, []⟩, ⟨2, -5, [0x20]⟩, ⟨3, 7, [0x3c]⟩]], XmlInDomain obj := by
+  decide +kernel
+
+/-- the recorded finding as a theorem about the model: changeset id 2^32−1 is written and then
+    rejected by the reader's `string_to_ulong` -/
+theorem xml_u32max_rejected :
+    ∃ out, wInt 4294967295 = .ok out ∧ XmlFmt.rUlong out = .error .range := by
+  refine ⟨[52, 50, 57, 52, 57, 54, 55, 50, 57, 53], by decide +kernel, by decide +kernel⟩
+
+theorem XmlInDomain.ok {obj : Object} (h : XmlInDomain obj) : XmlFmt.XObjOK obj := by
+  cases obj with
+  | node m l => exact ⟨h.1.ok, h.2⟩
+  | way m ns => exact ⟨h.1.ok, fun n hn => ⟨(h.2 n hn).1, (h.2 n hn).2.1, (h.2 n hn).2.2⟩⟩
+  | relation m ms => exact ⟨h.1.ok, fun x hx => h.2 x hx⟩
+  | changeset => exact absurd h (by simp [XmlInDomain])
+
+/-- headers of the XML domain: generator an XML string, boxes with int32 corners -/
+def XHeaderDom (h : Header) : Prop :=
+  XStrDom h.generator ∧ ∀ b ∈ h.boxes, XLocDom b.1 ∧ XLocDom b.2
+
+instance : DecidablePred XHeaderDom := fun h => by
+  unfold XHeaderDom XStrDom XLocDom; exact inferInstance
+
+open Osmium.XmlFmt in
+/-- **XML file round trip: header, change sections, objects** (`header_roundtrip` incl. the
+    generator clause, `change_file_roundtrip`, and the sequence version of `xml_roundtrip`).
+    For every header of the domain, every list of nodes / ways / relations of the XML domain
+    (one buffer) and EVERY option vector — in particular `xml_change_format`, where the writer
+    groups the objects into `<create>` (visible, version 1), `<modify>` (visible, other versions)
+    and `<delete>` (not visible) sections, opening and closing them as the operation changes —
+    the writer does not fail, a conforming parser reports events for the markup, and the reader
+    returns the header with the generator, the boxes normalised by `Box::extend` and
+    `has_multiple_object_versions` set exactly for change files, followed by exactly
+    `project opts` of every object, in order: the visible flag of every object of a change file
+    comes back from the section it stands in. -/
+theorem xml_file_roundtrip (o : Opts) (h : Header) (objs : List Object) (hh : XHeaderDom h)
+    (hall : ∀ obj ∈ objs, XmlInDomain obj) :
+    ∃ ps evs, filePieces o h [objs] = .ok ps ∧ eventsOf ps = some evs ∧
+      XmlFmt.read {} evs = .ok (projectHeader o h, objs.map (XmlFmt.project o)) := by
+  obtain ⟨ps, hps, r, hrun, hhdr, hout⟩ := file_run o h objs ⟨hh.1, fun b hb => hh.2 b hb⟩ (fun obj ho => (hall obj ho).ok)
+  obtain ⟨evs, he, hre⟩ := eventsOf_of_runPieces ps {} r hrun
+  refine ⟨ps, evs, hps, he, ?_⟩
+  simp only [XmlFmt.read, hre, bindE_ok, hhdr, hout]
+
+open Osmium.XmlFmt in
+/-- the same through any parser that satisfies the (pointwise) ExpatContract on the document: the
+    bytes the writer produces read back as the projected data -/
+theorem xml_file_roundtrip_expat (expat : Bytes → Option (List Ev)) (o : Opts) (h : Header) (objs : List Object)
+    (hh : XHeaderDom h) (hall : ∀ obj ∈ objs, XmlInDomain obj)
+    (hc : ∀ ps, filePieces o h [objs] = .ok ps → ExpatContract expat ps) :
+    ∃ doc, XmlFmt.writeFile o h [objs] = .ok doc ∧
+      readFile expat {} doc = .ok (projectHeader o h, objs.map (XmlFmt.project o)) := by
+  obtain ⟨ps, evs, hps, he, hr⟩ := xml_file_roundtrip o h objs hh hall
+  refine ⟨xmlDecl ++ serialize ps, by simp [XmlFmt.writeFile, hps], ?_⟩
+  have := hc ps hps
+  unfold ExpatContract at this
+  simp only [readFile, this, he, hr]
+
+/-- `header_roundtrip` (XML): generator, boxes (normalised by `Box::extend`), and the
+    multiple-versions flag of an object-free file come back — for every header of the domain. -/
+theorem xml_header_roundtrip (o : Opts) (h : Header) (hh : XHeaderDom h) :
+    ∃ ps evs, XmlFmt.filePieces o h [[]] = .ok ps ∧ XmlFmt.eventsOf ps = some evs ∧
+      XmlFmt.read {} evs = .ok (XmlFmt.projectHeader o h, []) := by
+  simpa using xml_file_roundtrip o h [] hh (by simp)
+
+example : XHeaderDom { generator := [0x6c, 0x69, 0x62, 0x20, 0x22, 0x3c, 0x26, 0xc3, 0xa9],
+                       boxes := [(⟨-1800000000, -900000000⟩, ⟨1800000000, 900000000⟩)], multipleVersions := false } := by
+  decide +kernel
+
+/-- `change_file_roundtrip`: the special case `xml_change_format` of `xml_file_roundtrip`,
+    spelled out — every object comes back with its visible flag (from the section) and the header
+    says "multiple object versions". -/
+theorem change_file_roundtrip (o : Opts) (ho : o.changeOps = true) (h : Header) (objs : List Object)
+    (hh : XHeaderDom h) (hall : ∀ obj ∈ objs, XmlInDomain obj) :
+    ∃ ps evs, XmlFmt.filePieces o h [objs] = .ok ps ∧ XmlFmt.eventsOf ps = some evs ∧
+      ∃ hdr out, XmlFmt.read {} evs = .ok (hdr, out) ∧ hdr.multipleVersions = true ∧ hdr.generator = h.generator ∧
+        out = objs.map (XmlFmt.project o) ∧
+        (out.map fun x => (metaOfObj x).visible) = objs.map fun x => (metaOfObj x).visible := by
+  obtain ⟨ps, evs, hps, he, hr⟩ := xml_file_roundtrip o h objs hh hall
+  refine ⟨ps, evs, hps, he, _, _, hr, by simp [XmlFmt.projectHeader, ho], rfl, rfl, ?_⟩
+  rw [List.map_map]
+  apply List.map_congr_left
+  intro x hx
+  have := hall x hx
+  cases x <;> simp [XmlFmt.project, XmlFmt.projectMeta, metaOfObj, ho] <;> exact absurd this (by simp [XmlInDomain])
 
 open Osmium.XmlFmt in
 /-- **Header boxes (XML), partial**: the four attributes of `<bounds>` as the writer formats them
